@@ -20,6 +20,7 @@ type Config struct {
 	MapPerm         bool
 	RunGo           bool
 	Sched           bool
+	Preempt         int
 	UnbufferedAsOne bool
 	Params          map[string]int
 	Verbose         bool
